@@ -35,7 +35,7 @@ fn main() {
         }
         i += 1;
     }
-    if prop != "SHOW" && prop != "PROBE" && prop != "TRANSLATE" && prop != "TABREF" && prop != "IMG" { std::fs::create_dir_all(&outdir).unwrap(); }
+    if prop != "SHOW" && prop != "PROBE" && prop != "TRANSLATE" && prop != "TABREF" && prop != "X18" && prop != "IMG" { std::fs::create_dir_all(&outdir).unwrap(); }
     // panics are outcomes, not noise
     if std::env::var("QV_DEBUG").is_err() { common::install_panic_recorder(); }
     if prop == "IMG" {
@@ -50,6 +50,7 @@ fn main() {
         return;
     }
     if prop == "PROBE" { common::install_panic_recorder(); c17::probe(&outdir, args.get(3).map(|s| s.as_str()).unwrap_or("postgresql")); return; }
+    if prop == "X18" { c18::show(&outdir, args.get(3).and_then(|s| s.parse().ok()).unwrap_or(8)); return; }
     if prop == "TABREF" { c15::tabref(&outdir, args.get(3).map(|s| s.as_str()).unwrap_or("sch.t1")); return; }
     if prop == "TRANSLATE" { c17::show(&outdir, args.get(3).map(|s| s.as_str()).unwrap_or("postgresql")); return; }
     if prop == "SHOW" {
